@@ -268,6 +268,7 @@ fn lsp_eval(s: &lsp::Session, h: &lsp::History) -> LspEval {
                 ("responses_cancelled", st.cancelled_responses),
                 ("reference_sessions", st.reference_sessions),
                 ("error_responses_compared_with_reference", st.errors_compared),
+                ("answers_explained_by_disk_writes_seen_early", st.disk_seen_early),
                 ("oracle_unstable", st.oracle_unstable),
                 ("diagnostics_compared", st.diagnostics_compared),
             ] {
@@ -422,7 +423,7 @@ fn lsp_replay(args: &[String]) -> i32 {
             println!("{l}");
         }
         for e in &h.events {
-            println!("EV {}", format!("{e:?}").chars().take(400).collect::<String>());
+            println!("EV {}", format!("{e:?}").chars().take(6000).collect::<String>());
         }
     }
     let res = json!({
